@@ -175,6 +175,37 @@ func c16Exec(x *Ctx) {
 					x.Violate("w7-client-path", "FStat(%q) succeeded although the local path does not exist", bad)
 				}
 			}
+			// the same from several goroutines sharing the client, once long paths have been resolved
+			k := 2 + int(c.Seed%3)
+			doneCnt := 0
+			for gi := 0; gi < k; gi++ {
+				gi := gi
+				var mine []tEntry
+				for n := 0; n < 6; n++ {
+					if e := tree[r.Intn(len(tree))]; e.Rel != "" {
+						mine = append(mine, e)
+					}
+				}
+				rt.Go(rt.SiteSpawn, func() {
+					rt.SetName(fmt.Sprintf("client-%d", gi))
+					for _, e := range mine {
+						local := filepath.Join(u.Root, e.Rel)
+						if _, lerr := os.Lstat(local); lerr != nil {
+							continue
+						}
+						d, err := clnt.FStat(e.Rel)
+						if err != nil {
+							x.Violate("w7-client-path", "FStat(%q) failed with %d goroutines sharing the client although the local path exists: %v", e.Rel, k, err)
+							continue
+						}
+						st := &Stat{Type: d.Type, Dev: d.Dev, Qid: Qid{d.Qid.Type, d.Qid.Version, d.Qid.Path}, Mode: d.Mode, Atime: d.Atime, Mtime: d.Mtime, Length: d.Length, Name: d.Name, Ext: d.Ext}
+						c16CheckStat(x, st, nil, local, clnt.Dotu, fmt.Sprintf("concurrent FStat(%q)", e.Rel))
+					}
+					doneCnt++
+				})
+			}
+			rt.YieldUntil(rt.SiteActor, func() bool { return doneCnt == k })
+			x.Probe("client-shared-by-goroutines")
 			finished = true
 		})
 	} else {
